@@ -1072,7 +1072,51 @@ func measureHandler(raw json.RawMessage) map[string]any {
 	}
 	out["whole"] = measureOf(whole)
 	out["parts"] = parts
+	// the same value in other representations: handed to the New<Kind>Flat constructor with every end-offset slice present
+	// (an empty member is an empty, non-nil slice there; the setters leave nil), and the Clone of that
+	alts := []any{}
+	if ev, _ := call(func() {
+		if f := reFlat(whole.(geom.T)); f != nil {
+			alts = append(alts, measureOf(f.(measurer)), measureOf(clone(f).(measurer)))
+		}
+	}); ev != "ok" {
+		alts = append(alts, map[string]any{"pan": "constructor", "a2": map[string]any{"ok": false, "v": 0, "x": "panic", "qok": false, "q": 0},
+			"len": map[string]any{"ok": false, "v": 0, "x": "panic", "qok": false, "q": 0}})
+	}
+	out["alts"] = alts
 	return out
+}
+
+// reFlat rebuilds g from copies of its flat coordinates and end offsets through the Flat constructor of its type; nil
+// end-offset slices become empty non-nil ones.
+func reFlat(g geom.T) geom.T {
+	flat := append([]float64{}, g.FlatCoords()...)
+	ends := append([]int{}, g.Ends()...)
+	l := g.Layout()
+	switch g := g.(type) {
+	case *geom.Point:
+		if len(flat) == 0 {
+			return geom.NewPointEmpty(l)
+		}
+		return geom.NewPointFlat(l, flat)
+	case *geom.LineString:
+		return geom.NewLineStringFlat(l, flat)
+	case *geom.LinearRing:
+		return geom.NewLinearRingFlat(l, flat)
+	case *geom.Polygon:
+		return geom.NewPolygonFlat(l, flat, ends)
+	case *geom.MultiLineString:
+		return geom.NewMultiLineStringFlat(l, flat, ends)
+	case *geom.MultiPoint:
+		return geom.NewMultiPointFlat(l, flat, geom.NewMultiPointFlatOptionWithEnds(ends))
+	case *geom.MultiPolygon:
+		endss := make([][]int, 0, len(g.Endss()))
+		for _, es := range g.Endss() {
+			endss = append(endss, append([]int{}, es...))
+		}
+		return geom.NewMultiPolygonFlat(l, flat, endss)
+	}
+	return nil
 }
 
 const cenQ = 256
